@@ -146,6 +146,8 @@ def artefacts_file(path, workdir, tag):
             out["fit_to_pdb_then_write_pdb"] = write_pdb(fit_to_pdb(table))
         except ValueError as e:
             out["fit_to_pdb_then_write_pdb"] = "refused: " + str(e)
+        except Exception as e:  # whatever it does, it must do the same in every interpreter
+            out["fit_to_pdb_then_write_pdb"] = f"raised {type(e).__name__}"
     for p in (jp, cp, jp + ".cli", cp + ".cli", os.path.join(workdir, f"{tag}.bpseq")):
         with contextlib.suppress(OSError):
             os.remove(p)
